@@ -5,13 +5,22 @@
 (* stated clauses are invariants of the final state, which is printed for the *)
 (* replay into LocusPrior.from_variant_record / encode_haplotypes /           *)
 (* Locus.format_haplotypes.                                                   *)
+(* A record also carries an INFO/SNVPOS annotation (`hint`, chosen by the     *)
+(* Annotate step from the set Hints): absent, '.', or any list of columns --  *)
+(* complete, incomplete or stale relative to REF/ALT (merged / edited         *)
+(* catalogues).  The sequence path (use_snvpos = False, the one the call      *)
+(* programs use) identifies the SNVs "directly from the ref and alt           *)
+(* sequences": FoundCols never consults the hint, so every clause holds for   *)
+(* every hint.  The trusted path (use_snvpos = True) takes the hint's columns *)
+(* and round-trips exactly when the hint covers the polymorphic columns.      *)
 EXTENDS HapCodecOps, TLC, Json
 
 CONSTANTS
   Letters,     \* base alphabet
   L,           \* haplotype length
   MaxAlt,      \* at most this many ALTs
-  Refs         \* set of REF sequences (subset of [1..L -> Letters])
+  Refs,        \* set of REF sequences (subset of [1..L -> Letters])
+  Hints        \* set of INFO/SNVPOS annotations a record may arrive with
 
 ACGT == {"A", "C", "G", "T"}
 AC == {"A", "C"}
@@ -19,51 +28,75 @@ ACG == {"A", "C", "G"}
 AllSeqs == [1..L -> Letters]
 TwoRefs3 == {<<"G", "A", "T">>, <<"C", "C", "A">>}
 
-VARIABLES stage, rec, cols, alleles, matrix, decoded
-vars == <<stage, rec, cols, alleles, matrix, decoded>>
+
+RECURSIVE AscSeq(_)
+AscSeq(S) == IF S = {} THEN <<>>
+             ELSE LET m == CHOOSE x \in S : \A y \in S : x <= y IN <<m>> \o AscSeq(S \ {m})
+NoHint == [kind |-> "unset", cols |-> <<>>]
+(* what assemble writes when every column is an input SNV *)
+FullHint == {[kind |-> "list", cols |-> [p \in 1..L |-> p]]}
+(* anything a catalogue may carry: no SNVPOS, SNVPOS=. , any non-empty set of columns *)
+AnyHint == {[kind |-> "absent", cols |-> <<>>], [kind |-> "dot", cols |-> <<>>]}
+           \cup {[kind |-> "list", cols |-> AscSeq(S)] : S \in (SUBSET (1..L)) \ {{}}}
+
+VARIABLES stage, rec, hint, cols, alleles, matrix, decoded
+vars == <<stage, rec, hint, cols, alleles, matrix, decoded>>
 
 Init ==
   /\ stage = "build"
   /\ \E s \in Refs : rec = [ref |-> s, alts |-> <<>>]
+  /\ hint = NoHint
   /\ cols = <<>> /\ alleles = <<>> /\ matrix = <<>> /\ decoded = <<>>
 
 AddAlt ==
   /\ stage = "build"
   /\ Len(rec.alts) < MaxAlt
   /\ \E s \in AllSeqs : s \notin Range(Rows(rec)) /\ rec' = [rec EXCEPT !.alts = Append(@, s)]
-  /\ UNCHANGED <<stage, cols, alleles, matrix, decoded>>
+  /\ UNCHANGED <<stage, hint, cols, alleles, matrix, decoded>>
+
+(* the record arrives with some SNVPOS annotation *)
+Annotate ==
+  /\ stage = "build"
+  /\ \E hnt \in Hints : hint' = hnt
+  /\ stage' = "find"
+  /\ UNCHANGED <<rec, cols, alleles, matrix, decoded>>
+
+(* sequence path: the columns where some ALT differs from REF, whatever the annotation says *)
+FoundCols(r, hnt) ==
+  SelectSeq([p \in 1..Len0(r) |-> p], LAMBDA p : \E h \in 1..Len(r.alts) : r.alts[h][p] # r.ref[p])
 
 FindSnvs ==
-  /\ stage = "build"
-  /\ cols' = SelectSeq([p \in 1..L |-> p], LAMBDA p : \E h \in 1..Len(rec.alts) : rec.alts[h][p] # rec.ref[p])
+  /\ stage = "find"
+  /\ cols' = FoundCols(rec, hint)
   /\ stage' = "number"
-  /\ UNCHANGED <<rec, alleles, matrix, decoded>>
+  /\ UNCHANGED <<rec, hint, alleles, matrix, decoded>>
 
 NumberAlleles ==
   /\ stage = "number"
   /\ alleles' = [j \in 1..Len(cols) |-> FirstAppearance(Column(rec, cols[j]))]
   /\ stage' = "encode"
-  /\ UNCHANGED <<rec, cols, matrix, decoded>>
+  /\ UNCHANGED <<rec, hint, cols, matrix, decoded>>
 
 EncodeRows ==
   /\ stage = "encode"
   /\ matrix' = LET rows == Rows(rec)
                IN  [h \in 1..Len(rows) |-> [j \in 1..Len(cols) |-> IndexOf(alleles[j], rows[h][cols[j]])]]
   /\ stage' = "decode"
-  /\ UNCHANGED <<rec, cols, alleles, decoded>>
+  /\ UNCHANGED <<rec, hint, cols, alleles, decoded>>
 
 DecodeRows ==
   /\ stage = "decode"
   /\ decoded' = Decode(rec, cols, alleles, matrix)
   /\ stage' = "done"
-  /\ UNCHANGED <<rec, cols, alleles, matrix>>
+  /\ UNCHANGED <<rec, hint, cols, alleles, matrix>>
 
-Next == AddAlt \/ FindSnvs \/ NumberAlleles \/ EncodeRows \/ DecodeRows
+Next == AddAlt \/ Annotate \/ FindSnvs \/ NumberAlleles \/ EncodeRows \/ DecodeRows
 Spec == Init /\ [][Next]_vars
 
 (* ---- invariants --------------------------------------------------------- *)
 Done == stage = "done"
-TypeOK == stage \in {"build", "number", "encode", "decode", "done"}
+TypeOK == /\ stage \in {"build", "find", "number", "encode", "decode", "done"}
+          /\ (stage # "build") => hint \in Hints
 
 RoundTrip == Done => decoded = Rows(rec)
 RefRowZero == Done => \A j \in 1..Len(cols) : matrix[1][j] = 0 /\ alleles[j][1] = rec.ref[cols[j]]
@@ -86,6 +119,27 @@ StepwiseMatchesDeclarative ==
 EncodingInjective ==
   Done => \A g, h \in 1..Len(matrix) : g # h => matrix[g] # matrix[h]
 
+(* the trusted path (use_snvpos = True): the codec on the columns the annotation names.   *)
+(* When the annotation covers the polymorphic columns the round trip holds, the matrix      *)
+(* restricted to the polymorphic columns is the sequence path's matrix and every other      *)
+(* named column has the single allele REF (number 0).                                      *)
+CoveringHintRoundTrips ==
+  (Done /\ Covers(hint, rec)) =>
+    LET hc == hint.cols
+        al == AllelesOn(rec, hc)
+        m  == EncodeOn(rec, hc)
+    IN  /\ Decode(rec, hc, al, m) = Rows(rec)
+        /\ \A j \in 1..Len(hc) :
+             IF \E k \in 1..Len(cols) : cols[k] = hc[j]
+             THEN LET k == CHOOSE k \in 1..Len(cols) : cols[k] = hc[j]
+                  IN  al[j] = alleles[k] /\ \A h \in 1..Len(m) : m[h][j] = matrix[h][k]
+             ELSE al[j] = <<rec.ref[hc[j]]>> /\ \A h \in 1..Len(m) : m[h][j] = 0
+(* an annotation that misses a polymorphic column cannot stand in for the sequences:       *)
+(* the codec restricted to its columns does not reproduce the record                       *)
+NonCoveringHintLosesSequence ==
+  (Done /\ hint.kind # "absent" /\ ~Covers(hint, rec)) =>
+    Decode(rec, hint.cols, AllelesOn(rec, hint.cols), EncodeOn(rec, hint.cols)) # Rows(rec)
+
 (* ---- wrong definitions for the mutant configs --------------------------- *)
 Rank(b) == CASE b = "A" -> 1 [] b = "C" -> 2 [] b = "G" -> 3 [] OTHER -> 4
 RECURSIVE SortedLetters(_)
@@ -99,8 +153,13 @@ MutDecodeRow(r, cs, al, row) ==                                 \* template offs
                         THEN LET j == CHOOSE j \in 1..Len(cs) : cs[j] = p + 1 IN al[j][row[j] + 1]
                         ELSE r.ref[p]]
 
+(* polymorphic columns searched only among the columns the annotation names *)
+MutFoundColsHinted(r, hnt) ==
+  IF hnt.kind = "list" THEN SelectSeq(hnt.cols, LAMBDA p : \E h \in 1..Len(r.alts) : r.alts[h][p] # r.ref[p])
+  ELSE SelectSeq([p \in 1..Len0(r) |-> p], LAMBDA p : \E h \in 1..Len(r.alts) : r.alts[h][p] # r.ref[p])
+
 Dump ==
-  IF Done THEN PrintT(<<"@@J", ToJson([ref |-> rec.ref, alts |-> rec.alts, cols |-> cols,
+  IF Done THEN PrintT(<<"@@J", ToJson([ref |-> rec.ref, alts |-> rec.alts, hint |-> hint, cols |-> cols,
                                        alleles |-> alleles, matrix |-> matrix])>>)
   ELSE TRUE
 =============================================================================
